@@ -3,7 +3,7 @@ from engine_m import oblig
 from engine_m import strings   # registers the bounded string layer
 from engine_m import fmtterms  # registers the string-term layer (enabled per obligation with opts['fmt_terms'])
 from engine_m.models import Abstraction, BoundAbstraction
-from engine_m.sym import En, IV, Agg, Opaque, mk_int
+from engine_m.sym import En, IV, Agg, Opaque, mk_int, Inconclusive
 import z3
 
 def _d2d(ex):
@@ -37,7 +37,33 @@ def _dtd_build(ex, args, res):
             ex.ctx.side.append(z3.Implies(ok.t, uf(k.t) == v.t))
     return En(disc, {0: [k], 1: [err]}, 'Result')
 oblig.ABSTRACTION_TABLE['date_to_days'] = lambda ex: Abstraction('date_to_days', 'contract_date_to_days', [('ok', 'bool'), ('k', 'i32', -2**31, 2**31 - 1)], build=_dtd_build)
+# year_doy_to_days through its contract (c18_year_doy_contract_holds; years strictly inside the range only: callers must be there)
+def _ydd_flat(ex, args):
+    y, doy, ign = [ex.deref(a) for a in args[:3]]
+    if ign.c is None: raise Inconclusive('year_doy_to_days abstraction: symbolic ignore_leap')
+    return [y, doy, mk_int(1 if ign.c else 0, 'u8')]
+def _ydd_build(ex, args, res):
+    ok, k = res
+    disc = IV(z3.If(ok.t, 0, 1), 'isize', 0, 1)
+    return En(disc, {0: [k], 1: [En(mk_int(0, 'isize'), {0: [Opaque('OutOfRange')]}, 'AstrolabeError')]}, 'Result')
+oblig.ABSTRACTION_TABLE['year_doy_to_days'] = lambda ex: Abstraction('year_doy_to_days', 'contract_year_doy_to_days', [('ok', 'bool'), ('k', 'i32', -2**31, 2**31 - 1)], flatten=_ydd_flat, build=_ydd_build)
+oblig.ABSTRACTION_TABLE['is_leap_year'] = lambda ex: Abstraction('is_leap_year', 'contract_is_leap_year', [('l', 'bool')])
 # the closed-form day count as an uninterpreted pure function (sound over-approximation; used where only congruence matters)
+# the rule instant as an uninterpreted function of (rule day, time, timestamp): the branch logic of the lookup is checked for any values
+def _rule_flat(ex, args):
+    from engine_m.sym import merge, bv_of
+    r = ex.deref(args[0]); out = [r.disc]
+    for i in range(3):
+        val = None
+        for k in sorted(r.v):
+            p = r.v[k]
+            x = ex.deref(p[i]) if i < len(p) else mk_int(0, 'u32')
+            x = IV(x.t, 'i64', x.lo, x.hi)
+            val = x if val is None else merge(bv_of(r.disc.t == k), x, val)
+        out.append(val)
+    return out + [ex.deref(args[1]), ex.deref(args[2])]
+oblig.ABSTRACTION_TABLE['rule_to_local_timestamp/uf'] = lambda ex: Abstraction('rule_to_local_timestamp', None, [('x', 'i64', -2**62, 2**62)], flatten=_rule_flat)
+oblig.ABSTRACTION_TABLE['spec_is_leap/uf'] = lambda ex: Abstraction('spec_is_leap', None, [('l', 'bool')], always=True)
 oblig.ABSTRACTION_TABLE['spec_rd/uf'] = lambda ex: Abstraction('spec_rd', 'contract_spec_rd_bound', [('rd', 'i64', -2**62, 2**62)], always=True)
 
 # the two instant <-> (day, nanoseconds) kernels through their contracts (c03_*_contract_holds, discharged in the same run)
